@@ -310,7 +310,7 @@ func (p DHCP4) AppendOptions(options DHCP4Options, order []byte) int {
 	order = append(order, optionsReplyParametersList...)
 
 	// first copy parameters in order
-	for _, code := range order {
+	emit := func(code byte) {
 		if value, ok := options[DHCP4OptionCode(code)]; ok {
 			buffer[pos] = byte(code)
 			buffer[pos+1] = byte(len(value))
@@ -318,6 +318,12 @@ func (p DHCP4) AppendOptions(options DHCP4Options, order []byte) int {
 			pos = pos + copy(buffer[pos:], value)
 			delete(options, DHCP4OptionCode(code))
 		}
+	}
+	for _, code := range order {
+		if DHCP4OptionCode(code) == DHCP4OptionRouter { // RFC 2132 3.3: the subnet mask must come first, whatever order the client asked for
+			emit(byte(DHCP4OptionSubnetMask))
+		}
+		emit(code)
 	}
 	// second, copy any remaining options
 	for code, value := range options {
